@@ -54,10 +54,34 @@ class RecPlugin(Plugin):
             return d.get(e.id, "?")
         if isinstance(e, ast.Attribute):
             if isinstance(e.value, ast.Name) and e.value.id == self.selfn:
+                if e.attr in ("get_prev", "get_next"):
+                    return ("meth", e.attr)
                 return d.get(e.attr, "?")
             return "?"
         if isinstance(e, ast.Tuple):
             return tuple(self.eval(x, d) for x in e.elts)
+        if isinstance(e, ast.Compare) or (
+                isinstance(e, ast.UnaryOp) and isinstance(e.op, ast.Not)):
+            # a truth value: decided by the same refinement the tests use
+            inner = e.operand if isinstance(e, ast.UnaryOp) else e
+            neg = isinstance(e, ast.UnaryOp)
+            if isinstance(inner, (ast.Compare, ast.Name, ast.Attribute)):
+                n_log = len(self.log)
+                t, f = self.refine(inner, dict(d))
+                if t and not f:
+                    return not neg
+                if f and not t:
+                    return neg
+                del self.log[n_log:]
+            return "?"
+        if isinstance(e, ast.IfExp):
+            t, f = self.refine(e.test, dict(d))
+            if t and not f:
+                return self.eval(e.body, d)
+            if f and not t:
+                return self.eval(e.orelse, d)
+            a, b = self.eval(e.body, d), self.eval(e.orelse, d)
+            return a if a == b else "?"
         if isinstance(e, ast.BinOp):
             a, b = self.eval(e.left, d), self.eval(e.right, d)
             pts = {"G", "Gs", "Ge", "D", "St"}
@@ -506,6 +530,17 @@ class _IterPlugin(RecPlugin):
     def eval(self, e, d):
         if isinstance(e, ast.Call):
             fn = U(e.func)
+            via = None
+            if isinstance(e.func, ast.Name):
+                bound = d.get(e.func.id)
+                if isinstance(bound, tuple) and len(bound) == 2 and \
+                        bound[0] == "meth":
+                    via = bound[1]
+            if via is not None:
+                for a in e.args:
+                    self.eval(a, d)
+                self.steps.append((via, "?"))
+                return "St"
             for m in ("get_prev", "get_next"):
                 if fn == "%s.%s" % (self.selfn, m):
                     flag = "?"
